@@ -32,6 +32,13 @@ CHECKS = {
    design_ref="DESIGN.md section 6 (C02)",
    note="The value of a replaced term is obtained from funsor itself by another route (other rules, or the same rules on ground instances): a rule wrong on every route passes. Float tolerance rtol 1e-6; carriers respect each semiring's side condition. Decided per sampled program, not for all programs.",
    technique="deterministic simulation: rule firings as enumerated decline faults, per-rule disable, cross-hash-world agreement"),
+ "C03": dict(
+   engine="confluence+memo",
+   category="exploration",
+   text="The scheduler decides, per constructor call of a seeded program, which interpretation is in force (eager, lazy, reflect, normalize, memoize over eager or lazy), i.e. which work is deferred; between construction and forcing it injects collections, dispatch-cache drops, fresh-name counter jumps and a failed (exception-injected) first forcing attempt; deferred terms are then forced by reinterpret (recursive or stack-free, by world), normalize+reinterpret, sequential, moment_matching or reinterpret under memoize. Every root is compared with the same program run immediately under eager in the same world (whole integer input space, sample points for real inputs, output domain, free inputs among the expression's). Memoize.interpret is wrapped and checked call by call against a model dict keyed by canonical (class, args): repeated identical calls must return the identical object and a hit must never serve different (class, args); dedicated histories reuse user cache dicts across blocks with user-defined term classes, drops, collections and re-allocated arrays.",
+   design_ref="DESIGN.md section 6 (C03)",
+   note="Reference = the real code on the trivial schedule; a rule that is wrong under every schedule passes (C01's domain). Sampled schedules, not all 6^n.",
+   technique="deterministic simulation: seeded per-call interpretation schedules and between-event faults vs. immediate evaluation; Memoize checked against a reference map"),
  "C17": dict(
    engine="ctxstack",
    category="fault_enumeration",
@@ -70,6 +77,7 @@ def main():
         },
         "engines": [
             {"name": "confluence", "path": "checks/c02.py", "serves_properties": ["C02"], "kind_free_text": "program executor under a rule-dispatch seam; decline/disable faults; fork per run; cross-world comparison"},
+            {"name": "confluence+memo", "path": "checks/c03.py", "serves_properties": ["C03"], "kind_free_text": "per-call interpretation scheduler, between-event faults, Memoize model"},
             {"name": "ctxstack", "path": "checks/c17.py", "serves_properties": ["C17"], "kind_free_text": "stack model + exception injection at internal calls (sys.monitoring)"},
         ],
         "checks": checks,
@@ -80,6 +88,6 @@ def main():
     print("wrote MANIFEST.json:", len(checks), "checks")
 
 if __name__ == "__main__":
-    for k in ("C03", "C07", "C14", "C16", "C20"):
+    for k in ( "C07", "C14", "C16", "C20"):
         PENDING[k] = "not yet claimed at this commit: the simulation engine for it (DESIGN.md section 6) is still being built; not a judgement of applicability."
     main()
